@@ -88,6 +88,8 @@ pub trait Subject: Sync {
     fn decompress(&self, d: &[u8], verify: bool) -> R<Split>;
     fn recompress(&self, plain: &[u8], corr: &[u8]) -> R<Vec<u8>>;
     fn expand(&self, f: &[u8]) -> R<Vec<u8>>;
+    /// expand_zlib_chunks with a log level > 0 (the library then prints to stdout)
+    fn expand_log(&self, f: &[u8], level: u32) -> R<Vec<u8>>;
     fn recreate(&self, src: &mut dyn Read, dst: &mut dyn Write) -> R<()>;
     fn compress_zstd(&self, f: &[u8]) -> R<Vec<u8>>;
     fn decompress_zstd(&self, f: &[u8], cap: usize) -> R<Vec<u8>>;
